@@ -39,7 +39,8 @@ func init() {
 	Plans["C03"].QuickSec = 420
 	Plans["C04"].QuickSec = 300
 	Plans["C08"].QuickSec = 300
-	Plans["C12"].QuickSec = 300
+	Plans["C12"].QuickSec = 400
+	Plans["C11"].QuickSec = 400
 	Plans["C15"].QuickSec = 300
 	Plans["C10"].QuickSec = 300
 	Plans["C14"].QuickSec = 300
